@@ -479,6 +479,14 @@ def run_case(case, fallback=None, engine=None):
             for b in case["mcts"].get("before", []):
                 play(engine, b["cfg"], b["torch_seed"])
     rec, log, crash = play(engine, case["cfg"], case["mcts"]["torch_seed"] if case["kind"] == "mcts" else None)
+    if log is not None and case.get("via_pickle"):
+        # the transcript as the trainer receives it from a self-play worker: through a pickle
+        import pickle
+
+        try:
+            log = pickle.loads(pickle.dumps(log))
+        except Exception as e:
+            log, crash = None, "pickle:" + type(e).__name__
     o = Obs()
     o.case = case
     o.rec = rec
@@ -798,9 +806,47 @@ def script_for(rng, size, moves, thr, resign_at=None, resign_v0=None, wide=False
 THRESHOLDS = ["3/4", "1/2", str(Fraction(0.95)), "1"]
 
 
+def long_line(rng, size, T):
+    """T legal plies that never end the game: a few placements, then stacks shuffled about"""
+    import tak
+
+    for _attempt in range(20):
+        pos = tak.Position.from_config(tak.Config(size=size))
+        moves = []
+        while len(moves) < T:
+            cands = pos.all_moves()
+            rng.shuffle(cands)
+            nxt = None
+            place_ok = len(moves) < 2 * size
+            for m in cands:
+                if m.type.value < 3 and not place_ok:
+                    continue
+                try:
+                    q = pos.move(m)
+                except tak.IllegalMove:
+                    continue
+                if q.winner()[1] is None:
+                    nxt = (m, q)
+                    break
+            if nxt is None:
+                break
+            moves.append(nxt[0])
+            pos = nxt[1]
+        if len(moves) >= T:
+            return moves
+    return None
+
+
 def scripted_cases(ctx, lines_by_size):
     """the scripted part of the tie: (label, case) pairs"""
     rng = ctx.rng
+    # a long game (beyond 256 plies: counters that fit a byte do not fit this game), cut by the ply
+    # limit, and handed on through a pickle as every worker's transcript is
+    for size, T in ((5, 300),) if not ctx.thorough else ((5, 300), (4, 270), (6, 520)):
+        mv = long_line(rng, size, T)
+        if mv:
+            thr = "2"
+            yield "end:long-game|limit:T-1|via-pickle", dict(kind="scripted", cfg=dict(size=size, threshold=thr, ply_limit=T - 1), line=script_for(rng, size, mv, thr), via_pickle=True)
     for size, lines in sorted(lines_by_size.items()):
         for kind, moves in sorted(lines.items()):
             T = len(moves)  # the terminal position has ply T
@@ -814,6 +860,8 @@ def scripted_cases(ctx, lines_by_size):
                     cfg=dict(size=size, threshold=thr, ply_limit=lim),
                     line=script_for(rng, size, moves, thr, wide=(size == 3 and lim == T + 20 and rng.random() < 0.3)),
                 )
+                if rng.random() < 0.25:
+                    case["via_pickle"] = True
                 yield "end:%s|limit:%s" % (kind.split("#")[0], "T%+d" % (lim - T) if abs(lim - T) <= 2 else ("big" if lim > T else str(lim))), case
             # resignations along this line
             n_res = 4 if (ctx.thorough or size <= 4) else 1
